@@ -42,7 +42,8 @@ pub struct SimInner {
     pub transitions: BTreeSet<(u32, u32)>,
     pub last_state: Option<u32>,
     pub sample: Option<String>,
-    pub max_steps: u64,
+    pub last_text: Option<String>,
+    pub repeat: u64,
 }
 
 #[derive(Clone)]
@@ -66,7 +67,8 @@ impl Sim {
             transitions: BTreeSet::new(),
             last_state: None,
             sample: None,
-            max_steps: 0,
+            last_text: None,
+            repeat: 0,
         })))
     }
 
@@ -125,8 +127,18 @@ impl Sim {
         s.steps += 1;
         if s.trace_on {
             let step = s.steps;
-            if s.trace.len() < 4000 {
-                s.trace.push(format!("step {} {}", step, text()));
+            let t = text();
+            // run-length collapse of identical consecutive events (e.g. a spinning block!)
+            if s.last_text.as_deref() == Some(t.as_str()) {
+                s.repeat += 1;
+                let n = s.repeat;
+                if let Some(last) = s.trace.last_mut() {
+                    *last = format!("step {} {}   (x{} up to here, first at step {})", step, t, n, step + 1 - n);
+                }
+            } else if s.trace.len() < 4000 {
+                s.trace.push(format!("step {} {}", step, t));
+                s.last_text = Some(t);
+                s.repeat = 1;
             }
         }
     }
